@@ -16,12 +16,16 @@
 //     websocket / kcp / quic, with a scripted login over frp's real connector or a complete real
 //     frpc; the outcome is read from the reply and from the server's session table and compared
 //     with an independent statement of the rules.
+//  4. reload monitor: TLS off; an http and a tcp proxy of a real frpc process are switched from
+//     useEncryption=false to true by a real reload (admin API /api/reload) while slow http requests and a
+//     tcp connection of the old registration are in flight; every marker sent after the reload took
+//     effect must be absent from the capture.
 //  3. first-byte sweep: every first byte 0x00–0xFF (and none) followed by a correctly signed
 //     plaintext login (raw or as a yamux session, on tcp / websocket / kcp) against a server that
 //     forces TLS must never produce a LoginResp nor a session.
 //
 // Debug switches (not part of any tier): C05_TIMING=1 prints per-case durations and failed legs to stderr;
-// C05_PROTO=<transport> forces the lattice transport; C05_ONLY_LATTICE / C05_ONLY_SWEEP run one monitor only;
+// C05_PROTO=<transport> forces the lattice transport; C05_ONLY_LATTICE / C05_ONLY_SWEEP / C05_ONLY_RELOAD run one monitor only;
 // C05_STRESS_CANCEL=<n> runs the frpc cancel-after-login witness (see stress.go).
 package main
 
@@ -40,7 +44,7 @@ var run *h.Run
 
 func main() {
 	run = h.NewRun(prop, "exploration")
-	run.Rule = "lattice cases: (tls, transport, tcpMux) enumerated from the case index, all other settings (custom first byte, force / trusted CA / certificates, auth scopes, pool count, per-proxy encryption and compression, payload size) from the PRNG; a case is distinct by its full configuration and counts only if at least one leg carried marked payload end to end and the observer's sensitivity controls succeeded. TLS-matrix cases: design templates × 4 transports, remaining dimensions from the PRNG, distinct by configuration. Sweep: distinct by (server mode, mux, transport, first byte)."
+	run.Rule = "lattice cases: (tls, transport, tcpMux) enumerated from the case index, all other settings (custom first byte, force / trusted CA / certificates, auth method: shared token / no token / oidc, auth scopes, pool count, per-proxy encryption and compression, payload size) from the PRNG; a case is distinct by its full configuration and counts only if at least one leg carried marked payload end to end and the observer's sensitivity controls succeeded. TLS-matrix cases: design templates × 4 transports, remaining dimensions from the PRNG, distinct by configuration. Sweep: distinct by (server mode, mux, transport, first byte). Reload cases: (transport, mux) from the index, rest PRNG; distinct by configuration, counted only if payload flowed after the reload."
 	run.Assumptions = []string{
 		"the observer sees exactly the bytes between frpc and frps (loopback relay); timing and lengths are not examined",
 		"markers are searched raw, as hex and as base64 (std/url alphabet, three alignments); any other reversible encoding of a secret would be missed",
@@ -72,10 +76,16 @@ func main() {
 		closeServers()
 		run.Finish(1)
 	}
+	nReload := run.N(18, 240)
+	if os.Getenv("C05_ONLY_RELOAD") != "" {
+		run.Parallel(nReload, 8, func(c *h.Case) { reloadCase(c, c.Idx) })
+		closeServers()
+		run.Finish(1)
+	}
 	nMatrix := run.N(len(matrixTemplates())*4*2, len(matrixTemplates())*4*10)
 	sweeps := sweepConfigs(run.Thorough())
 
-	total := nLattice + nMatrix + len(sweeps)
+	total := nLattice + nMatrix + len(sweeps) + nReload
 	run.Parallel(total, 8, func(c *h.Case) {
 		if os.Getenv("C05_TIMING") != "" {
 			t0 := time.Now()
@@ -88,8 +98,10 @@ func main() {
 			latticeCase(c)
 		case c.Idx < nLattice+nMatrix:
 			matrixCase(c, c.Idx-nLattice)
-		default:
+		case c.Idx < nLattice+nMatrix+len(sweeps):
 			sweepCase(c, sweeps[c.Idx-nLattice-nMatrix])
+		default:
+			reloadCase(c, c.Idx-nLattice-nMatrix-len(sweeps))
 		}
 	})
 	closeServers()
